@@ -71,3 +71,29 @@ CLAIMED.update({
 })
 ENGINES += [{"name": "ASM", "path": "sa/engines/asm.py", "serves_properties": ["C03"],
   "kind_free_text": "abstract stack-effect interpreter over the disassembly of the assembled NASM unit (slot map, register provenance, alignment)"}]
+
+CLAIMED.update({
+ "C10": {"engine": "FLOW (pointer typestate) + INV", "technique": "static analysis: a bundle of exact rules, one per obligation class named by the anchors",
+         "text": "Eight exact rules: interior pointers into growable containers are not used (or handed to an invalidating callee) after a call that may move or overwrite the storage; pool objects are not double-freed or used after a possible re-allocation; realloc results stored back with byte sizes; parallel arrays allocated by capacity; no restructuring during iteration; byte-indexed tables have 256 entries; membership-asserting accessors are dominated by a membership test or a reviewed precondition; unwinding routines never abort on membership/count. General absence of UB is NOT claimed.",
+         "note": "index arithmetic, overflow and float-to-int conversions are out of reach"},
+ "C15": {"engine": "INV (effects)", "technique": "static analysis: transitive read/write effect sets over static-storage variables, reset-or-memo classification, bootstrap shape",
+         "text": "Every static-storage variable the samplers read is reset unconditionally by the seeding function, a parameter memo, or never written; every one they write is thread-local; the seeding function seeds splitmix with the given seed, assigns the four state words from splitmix64() and discards exactly 20 outputs; the generator state has no other writers or direct readers. That the arithmetic IS sfc64/splitmix64 (constants) is not decided.",
+         "note": "libm assumed pure; logging/assertion paths excluded from the effect sets"},
+ "C16": {"engine": "INV", "technique": "static analysis: structural bounds on index-valued samplers and generated tables (narrow clauses only)",
+         "text": "NARROW: decides only that search-loop counters used as sampled indices cannot be one-past-the-end, that the unit-interval generator is strictly below 1 by construction, that byte-indexed tables have 256 entries, and that Bernoulli-based counts accumulate 0/1 trials over exactly n iterations. Distribution fit and value-level support of continuous samplers are not decidable statically and are not claimed.",
+         "note": "the behavioural core of this property (distribution fit) is out of reach of static analysis"},
+ "C17": {"engine": "DEG + INV", "technique": "static analysis: homogeneity-degree typing of the moment formulas in two scalings, guarded-division rule, aliasing rule",
+         "text": "Decides necessary conditions of exactness: every sum in add/merge is homogeneous in the data (m_k degree k) and in the weights (m1 degree 0, m2..m4 and wsum degree 1); every weighted accessor has weight degree 0 (scale invariance for all inputs); divisions by count/weight-sum derived quantities are dominated by positivity facts (incl. empty merges); merge writes the target only by a final struct copy; min/max/count merged correctly; zero weights ignored. Numeric coefficients are not decided.",
+         "note": "catches wrong powers and missing/extra factors, not wrong constants"},
+ "C18": {"engine": "INV", "technique": "static analysis: exchange-only writes, grouped triple swaps, exhaustive bin assignment, copy/allocation agreement (narrow clauses only)",
+         "text": "NARROW: sorting writes array elements only through exchanges (same multiset for every input), time-series exchanges move all three parallel arrays with one index pair (samples stay whole), histogram filling adds exactly one contribution per sample on an exhaustive bin assignment over the right range, copies copy what they allocate. Ascending order, medians/quartiles and autocorrelation invariances are value-level and not claimed.",
+         "note": "most of this property is value-level and out of reach"},
+ "C19": {"engine": "INV (effects)", "technique": "static analysis: shared-state discipline over all static-storage variables, dispenser/join shape, thread-local reset classification",
+         "text": "Every non-thread-local, non-const static variable is atomic-only, set up before the first pthread_create, a mutex or never written; the trial index comes from an atomic fetch-add of 1 with the bound test before use, trial pointer = base + index*size, trial function called once per index; create/join loops agree; every thread-local written at run time is reset by a per-trial initialiser, a parameter memo or reviewed result-neutral.",
+         "note": "bit-identity with a sequential run as such is not decided; neutral table reviewed by reading"},
+ "C20": {"engine": "INV", "technique": "static analysis: realloc discipline, free-list threading arithmetic, push/pop symmetry, dominance of the chunk-list store",
+         "text": "Chunk list grown with a stored-back byte-sized realloc; new chunks threaded with stride obj_sz over exactly incr_num-1 links ending in NULL with incr_num*obj_sz within the page-rounded chunk; object size release-asserted multiple of 8 on the one initialisation route, static pools initialised/registered on first use; alloc pops / free pushes symmetrically and nothing else writes the head; chunk-list slot dominated by the grow test; terminate frees all.",
+         "note": "sizeof(void*) == 8 on the analysed port"},
+})
+ENGINES += [{"name": "DEG", "path": "sa/engines/deg.py", "serves_properties": ["C17"],
+  "kind_free_text": "degree typing of arithmetic expressions in a scaling variable (weights or data)"}]
